@@ -3,4 +3,4 @@
 set -e
 cd "$(dirname "$0")"
 export CARGO_NET_OFFLINE=true
-./check ALL-BUILD --engines "${VERIF_SETUP_ENGINES:-e1,e2,e3}"
+./check ALL-BUILD --engines "${VERIF_SETUP_ENGINES:-e1,e2,e3,e4}"
